@@ -335,6 +335,12 @@ Definition represents (sdmf : bool) (maxseg k : nat) (f : mfile) (d : bytes) : P
   mf_sdmf f = sdmf /\ mf_k f = k /\ mf_segsize f = seg_size_of sdmf maxseg k (length d) /\ mf_len f = length d /\
   mf_segs f = map (pad k) (chunks (mf_segsize f) d).
 
+(* the bytes a TransformingUploadable serves when it is read the way Publish reads it:
+   old start segment up to the offset, the new data, and m bytes of the old end segment from
+   where the new data ends *)
+Definition tu_region (data s e : bytes) (offset segsize m : nat) : bytes :=
+  firstn (offset mod segsize) s ++ data ++ firstn m (skipn ((offset mod segsize + length data) mod segsize) e).
+
 (* ---- helpers for executable cases ------------------------------------------ *)
 Definition opt_bytes_eqb (a b : option bytes) : bool :=
   match a, b with
